@@ -88,6 +88,14 @@ Theorem C03_rendered_text_matches : forall ct e full stripped tagged frags text 
 Proof. exact rendered_text_matches. Qed.
 Print Assumptions C03_rendered_text_matches.
 
+(* ... and exactly those (no padding): the text denotes what the pattern denotes *)
+Theorem C03_rendered_text_exact : forall ct e full tagged frags text s,
+  In e extras8 -> forallb (frag_renderable e) frags = true ->
+  vrle2re false full e false tagged frags = Ok text ->
+  (re_model_fullmatch ct text s = Some true <-> matches_frags ct false e frags s).
+Proof. exact rendered_text_exact. Qed.
+Print Assumptions C03_rendered_text_exact.
+
 (* the extra letters of a run are always one of extras8 *)
 Theorem C03_extras_normalised : forall x, In (norm_extras x) extras8.
 Proof. exact norm_extras_in8. Qed.
